@@ -10,7 +10,7 @@ use ebml_iterable::{TagIterator, TagWriter, WriteOptions};
 use serde_json::{json, Value as J};
 
 use crate::io::{error_token, AScript, DeferredWakes, ExecError, RScript, ReadLog, ReadStats, SimAsyncRead, SimReader, SimWriter, WScript};
-use crate::spec::{from_tagv, to_tagv, DTag, Spec, SpecKind, SpecTable, StaticSpec};
+use crate::spec::{from_tagv, to_tagv, DTag, Spec, SpecKind, SpecTable, StaticSpec, StaticSpec2};
 use crate::val::{ErrV, TagV, Val, WErrV};
 
 pub const ALLOW_IDS: u8 = 1;
@@ -631,6 +631,7 @@ pub fn run_reader(spec: &SpecTable, s: &ReaderSetup) -> RTrace {
             run_reader_t::<DTag>(s)
         }
         SpecKind::Static => run_reader_t::<StaticSpec>(s),
+        SpecKind::Static2 => run_reader_t::<StaticSpec2>(s),
     }
 }
 
@@ -813,6 +814,7 @@ pub fn run_writer(spec: &SpecTable, ops: &[WOp], wscript: &WScript, finish: bool
             run_writer_t::<DTag>(ops, wscript, finish)
         }
         SpecKind::Static => run_writer_t::<StaticSpec>(ops, wscript, finish),
+        SpecKind::Static2 => run_writer_t::<StaticSpec2>(ops, wscript, finish),
     }
 }
 
@@ -930,6 +932,7 @@ pub fn run_async(spec: &SpecTable, input: &Arc<Vec<u8>>, buffered: &[u64], scrip
             crate::spec::install(spec);
             run_async_t::<DTag>(input, buffered, script, use_stream, max_items)
         }
-        SpecKind::Static => run_async_t::<StaticSpec>(input, buffered, script, use_stream, max_items)
+        SpecKind::Static => run_async_t::<StaticSpec>(input, buffered, script, use_stream, max_items),
+        SpecKind::Static2 => run_async_t::<StaticSpec2>(input, buffered, script, use_stream, max_items),
     }
 }
